@@ -16,6 +16,14 @@ def run_plain(case):
     plain = v.to_plain()
     return {"parts": enc_parts(v.s), "plain": plain, "re": enc_parts(SigmaString(plain).s)}
 
+def run_cased(case):
+    # the two ways a case-sensitive string comes into being: parsed directly, and converted from a parsed string (|cased)
+    from sigma.types import SigmaCasedString
+    v = SigmaString(case["s"])
+    c = SigmaCasedString.from_sigma_string(v)
+    return {"parts": enc_parts(v.s), "conv": enc_parts(c.s), "direct": enc_parts(SigmaCasedString(case["s"]).s),
+            "cls": type(c).__name__, "after": enc_parts(v.s)}
+
 def run_convert(case):
     k = case["k"]
     v = SigmaString(case["s"])
